@@ -50,6 +50,10 @@ let contains (s : string) (sub : string) =
 let is_final (b : C.n list) = contains (string_of_bytes b) "\"final\": true"
 let rec nat_of_int n = if n = 0 then C.O else C.S (nat_of_int (n - 1))
 let handle = function
+  | "c" :: chunks ->
+      (match C.client_request is_final (C.feed (List.map bytes_of_hex chunks)) with
+       | None -> "NONE"
+       | Some fr -> String.concat " " (List.map hex_of_bytes fr))
   | "f" :: k :: chunks ->
       (match C.read_until_final is_final (nat_of_int (int_of_string k)) C.ipc_init (C.feed (List.map bytes_of_hex chunks)) with
        | None -> "NONE"
